@@ -2,6 +2,7 @@ import Abyss.Ops
 import Abyss.Scan
 import Abyss.Stats
 import Abyss.Render
+import Abyss.Check
 /-!
 # Line-protocol driver of the executable model (no Mathlib; built as `abyss-driver`)
 One request per input line, one answer line per request. See harness/src/proto.rs.
@@ -208,6 +209,10 @@ def handle (ms : Maps) (line : String) : IO (Maps × String) := do
       | "iter", [] => return (ms, iterLine s)
       | "stats", [] => return (ms, statsLine s)
       | "noop", _ => return (ms, "ok")
+      | "check", [] =>
+        match s.checkInv kt with
+        | none => return (ms, "inv-ok")
+        | some e => return (ms, "inv-FAIL:" ++ e)
       | "bucket", [k] =>
         match parseBytes k with
         | some k => return (ms, toString (bucketOf k s.n))
